@@ -205,4 +205,100 @@ theorem validGo_ascii (s : Bytes) (h : ∀ x ∈ s, x < 128) : Url.validGo 0 s =
     have : Url.utf8Next (b :: bs) = .valid 1 := by simp [Url.utf8Next, hb]
     simp [Url.validGo, this, ih (fun x hx => h x (by simp [hx]))]
 
+/-! ### splitting a serialised URL into prefix, query and fragment -/
+
+theorem splitFirst_no_sep (sep : Nat) (s : Bytes) (h : ∀ x ∈ s, x ≠ sep) : Url.splitFirst sep s = (s, []) := by
+  induction s with
+  | nil => simp [Url.splitFirst]
+  | cons b bs ih =>
+    have hb : b ≠ sep := h b (by simp)
+    simp [Url.splitFirst, hb, ih (fun x hx => h x (by simp [hx]))]
+
+theorem splitFirst_fst_mem (sep : Nat) (s : Bytes) : ∀ x ∈ (Url.splitFirst sep s).1, x ∈ s ∧ x ≠ sep := by
+  induction s with
+  | nil => simp [Url.splitFirst]
+  | cons b bs ih =>
+    intro x hx
+    unfold Url.splitFirst at hx
+    split at hx
+    · simp at hx
+    · next hb =>
+      simp only [List.mem_cons] at hx ⊢
+      rcases hx with h | h
+      · subst h; exact ⟨Or.inl rfl, hb⟩
+      · have := ih x h; exact ⟨Or.inr this.1, this.2⟩
+
+theorem splitFirst_snd_mem (sep : Nat) (s : Bytes) : ∀ x ∈ (Url.splitFirst sep s).2, x ∈ s := by
+  induction s with
+  | nil => simp [Url.splitFirst]
+  | cons b bs ih =>
+    intro x hx
+    unfold Url.splitFirst at hx
+    split at hx
+    · simp at hx; simp [hx]
+    · simp only [List.mem_cons]; exact Or.inr (ih x hx)
+
+theorem contains_false_of_ne (sep : Nat) (s : Bytes) (h : ∀ x ∈ s, x ≠ sep) : s.contains sep = false := by
+  simp only [List.contains_eq_mem, decide_eq_false_iff_not]
+  intro hm
+  exact h sep hm rfl
+
+/-- prefix without `?`/`#`, query without `#`: splitting the joined URL returns the parts -/
+theorem splitUrl_joinUrl (pre q : Bytes) (frag : Option Bytes)
+    (h1 : ∀ x ∈ pre, x ≠ 35 ∧ x ≠ 63) (h2 : ∀ x ∈ q, x ≠ 35) :
+    splitUrl (joinUrl ⟨pre, some q, frag⟩) = ⟨pre, some q, frag⟩ := by
+  have hpq : ∀ x ∈ pre ++ 63 :: q, x ≠ 35 := by
+    intro x hx
+    simp only [List.mem_append, List.mem_cons] at hx
+    rcases hx with h | h | h
+    · exact (h1 x h).1
+    · omega
+    · exact h2 x h
+  have hsq := splitFirst_append 63 pre q (fun x hx => (h1 x hx).2)
+  have hc63 : (pre ++ 63 :: q).contains 63 = true := by simp
+  cases frag with
+  | none =>
+    have hs := splitFirst_no_sep 35 (pre ++ 63 :: q) hpq
+    have hc := contains_false_of_ne 35 (pre ++ 63 :: q) hpq
+    simp only [joinUrl, List.append_nil, splitUrl, hs, hsq, hc63, hc]
+    simp
+  | some f =>
+    have hs := splitFirst_append 35 (pre ++ 63 :: q) f hpq
+    have hc : ((pre ++ 63 :: q) ++ 35 :: f).contains 35 = true := by simp
+    simp only [joinUrl, splitUrl, hs, hsq, hc63, hc]
+    simp
+
+/-- what `splitUrl` returns satisfies the hypotheses of `splitUrl_joinUrl` -/
+theorem splitUrl_clean (u : Bytes) :
+    (∀ x ∈ (splitUrl u).pre, x ≠ 35 ∧ x ≠ 63) ∧ (∀ x ∈ (splitUrl u).query.getD [], x ≠ 35) := by
+  constructor
+  · intro x hx
+    simp only [splitUrl] at hx
+    have h1 := splitFirst_fst_mem 63 _ x hx
+    have h2 := splitFirst_fst_mem 35 u x h1.1
+    exact ⟨h2.2, h1.2⟩
+  · intro x hx
+    simp only [splitUrl] at hx
+    split at hx
+    · simp only [Option.getD_some] at hx
+      have h1 := splitFirst_snd_mem 63 _ x hx
+      exact (splitFirst_fst_mem 35 u x h1).2
+    · simp at hx
+
+theorem appendPair_no_hash (q k v : Bytes) (hk : IsBytes k) (hv : IsBytes v) (hq : ∀ x ∈ q, x ≠ 35) :
+    ∀ x ∈ appendPair q k v, x ≠ 35 := by
+  intro x hx
+  unfold appendPair at hx
+  simp only [List.mem_append, List.mem_cons] at hx
+  rcases hx with h | h | h | h
+  · split at h
+    · simp at h
+    · simp only [List.mem_append, List.mem_singleton] at h
+      rcases h with h | h
+      · exact hq x h
+      · omega
+  · exact (formEnc_clean k hk x h).2.2.1
+  · omega
+  · exact (formEnc_clean v hv x h).2.2.1
+
 end Leptos.ServerFn
